@@ -92,7 +92,7 @@ def generate(rng: random.Random, tier: str) -> dict:
         cfg["prepped"] = rng.random() < 0.6
         cfg["copy_per_task"] = rng.random() < 0.4
         cfg["second_object"] = rng.random() < 0.35
-        cfg["second_same_key_other_bucket"] = rng.random() < 0.5
+        cfg["second_variant"] = rng.choice(["other-key", "other-bucket", "other-endpoint"])
         cfg["overlap_lifecycles"] = cfg["second_object"] and T >= 2 and rng.random() < 0.5
         wl["part_base"] = rng.choice([0, 0, 95, 9990])
         cfg["kw"] = {}
@@ -224,7 +224,8 @@ def _exec_s3(record: dict, ch: Chooser, log: Digest) -> Outcome:
         "scenario_cluster": int(scen == "cluster"),
         "overlapping_lifecycles": 0,
         "part_numbers_near_10000": int(wl.get("part_base", 0) >= 9000),
-        "same_key_in_two_buckets": int(bool(cfg.get("second_object") and cfg.get("second_same_key_other_bucket"))),
+        "same_key_in_two_buckets": int(bool(cfg.get("second_object") and (cfg.get("second_variant") == "other-bucket" or cfg.get("second_same_key_other_bucket")))),
+        "same_object_name_behind_two_endpoints": int(bool(cfg.get("second_object") and cfg.get("second_variant") == "other-endpoint")),
     }
     getattr(S, "_state", {}).clear()
     fakes.install_fake_s3(s3)
@@ -235,10 +236,21 @@ def _exec_s3(record: dict, ch: Chooser, log: Digest) -> Outcome:
     bucket = "bkt"
     keys = ["a/obj.tif"] + (["a/obj2.tif"] if cfg.get("second_object") else [])
     # the second object may be the SAME key in another bucket: coordination state must not be shared
-    bucket_of = {k: bucket for k in keys}
-    if cfg.get("second_object") and cfg.get("second_same_key_other_bucket"):
+    bucket_of = {k: bucket for k in keys}  # as the (fake) service sees it: "<endpoint>|<bucket>" for a non-default endpoint
+    real_bucket = {k: bucket for k in keys}
+    endpoint_of: Dict[str, Optional[str]] = {k: None for k in keys}
+    variant = cfg.get("second_variant") or ("other-bucket" if cfg.get("second_same_key_other_bucket") else "other-key")
+    if cfg.get("second_object") and variant in ("other-bucket", "other-endpoint"):
         keys = ["a/obj.tif", "a/obj.tif@other"]  # internal handle; real key below
-        bucket_of = {"a/obj.tif": bucket, "a/obj.tif@other": "other-bkt"}
+        if variant == "other-bucket":
+            bucket_of = {"a/obj.tif": bucket, "a/obj.tif@other": "other-bkt"}
+            real_bucket = dict(bucket_of)
+            endpoint_of = {k: None for k in keys}
+        else:  # the same bucket and key behind another endpoint
+            ep = "http://other-endpoint:9000"
+            bucket_of = {"a/obj.tif": bucket, "a/obj.tif@other": f"{ep}|{bucket}"}
+            real_bucket = {k: bucket for k in keys}
+            endpoint_of = {"a/obj.tif": None, "a/obj.tif@other": ep}
     real_key = {k: k.split("@")[0] for k in keys}
     receipts: Dict[str, Dict[int, Any]] = {k: {} for k in keys}
     sent: Dict[str, Dict[int, bytes]] = {k: {} for k in keys}
@@ -249,7 +261,7 @@ def _exec_s3(record: dict, ch: Chooser, log: Digest) -> Outcome:
             client = fakes.FakeClient(cluster, "client0")
             writers: Dict[str, Any] = {}
             for key in keys:
-                mpu = S.MultiPartUpload(bucket_of[key], real_key[key])
+                mpu = S.MultiPartUpload(real_bucket[key], real_key[key], endpoint_url=endpoint_of[key])
                 if scen == "inproc":
                     cluster.default_client = None
                     writers[key] = mpu.writer(cfg.get("kw", {}))
@@ -352,7 +364,7 @@ def _exec_s3(record: dict, ch: Chooser, log: Digest) -> Outcome:
                     kernel.spawn(fprefix, lambda: fin_body(keys))
                     v = _drive(kernel, ch, log, res)
             if v is None:
-                v = _check_s3(s3, cluster, bucket_of, real_key, [k for k in keys if receipts[k]], sent, receipts, fin_results)
+                v = _check_s3(s3, cluster, bucket_of, real_key, [k for k in keys if receipts[k]], sent, receipts, fin_results, real_bucket)
         except HarnessError:
             raise
         except Exception as e:  # pylint: disable=broad-except
@@ -390,7 +402,7 @@ def _rle_head(ch: Chooser) -> List[Any]:
     return compress_schedule(ch.schedule_out)[:40]
 
 
-def _check_s3(s3: fakes.FakeS3, cluster, bucket_of, real_key, keys, sent, receipts, fin_results) -> Optional[Violation]:
+def _check_s3(s3: fakes.FakeS3, cluster, bucket_of, real_key, keys, sent, receipts, fin_results, real_bucket=None) -> Optional[Violation]:
     for key in keys:
         bkt, rk = bucket_of[key], real_key[key]
         creates = [c for c in s3.calls if c[0] == "create" and c[2] == bkt and c[3] == rk]
@@ -412,7 +424,7 @@ def _check_s3(s3: fakes.FakeS3, cluster, bucket_of, real_key, keys, sent, receip
         if s3.objects.get((bkt, rk)) != want:
             return Violation(PROP, "O18.5", "object-differs-from-parts", {"key": key})
         fr = fin_results.get(key)
-        if not isinstance(fr, dict) or fr.get("Key") != rk or fr.get("Bucket") != bkt:
+        if not isinstance(fr, dict) or fr.get("Key") != rk or fr.get("Bucket") != (real_bucket or bucket_of)[key]:
             return Violation(PROP, "O18.5", "finalise-result", {"key": key, "result": repr(fr)[:200]})
     return None
 
@@ -663,7 +675,7 @@ def candidates(record: dict) -> Iterable[dict]:
         c = copy.deepcopy(record)
         c["workload"]["part_base"] = 0
         yield c
-    for k, simple in (("overlap_lifecycles", False), ("second_same_key_other_bucket", False), ("dst_name", "final.bin"), ("dst_exists", False), ("second_object", False), ("copy_per_task", False), ("prepped", True), ("keep_parts", None), ("place", "default"), ("limits", {}), ("dst_as_str", False), ("kw", {})):
+    for k, simple in (("overlap_lifecycles", False), ("second_variant", "other-key"), ("dst_name", "final.bin"), ("dst_exists", False), ("second_object", False), ("copy_per_task", False), ("prepped", True), ("keep_parts", None), ("place", "default"), ("limits", {}), ("dst_as_str", False), ("kw", {})):
         if k in cfg and cfg[k] != simple:
             c = copy.deepcopy(record)
             c["config"][k] = simple
